@@ -466,6 +466,13 @@ class Zeroconf(QuietLogger):
         assert info.server_key is not None
         entries = self.registry.async_get_infos_server(info.server_key)
         broadcast_addresses = not bool(entries)
+        # Answers for this service that are still waiting in the multicast
+        # queues would otherwise be sent with their full TTL after the goodbye
+        withdrawn = [info.dns_pointer(), info.dns_service(), info.dns_text()]
+        if broadcast_addresses:
+            withdrawn.extend(info.get_address_and_nsec_records())
+        self.out_queue.async_remove_records(withdrawn)
+        self.out_delay_queue.async_remove_records(withdrawn)
         return asyncio.ensure_future(
             self._async_broadcast_service(info, _UNREGISTER_TIME, 0, broadcast_addresses)
         )
